@@ -114,16 +114,16 @@ func (a ammW) ExitPoolEst(ctx sdk.Context, poolId uint64, shareIn sdkmath.Int, o
 }
 
 type state struct {
-	env                    *wire.Env
-	T, restLp, posLp       sdkmath.Int // amm total shares, other positions' LP, owner position's LP
-	tv, cash, restDebt     sdkmath.Int // vault: value, cash, other borrowers' debt
-	debt                   sdkmath.Int // owner position's principal
-	coll                   sdkmath.Int
-	wallet                 sdkmath.Int
-	est                    sdkmath.Int
-	count                  uint64
-	hasPos                 bool
-	stopLoss               sdkmath.LegacyDec
+	env                *wire.Env
+	T, restLp, posLp   sdkmath.Int // amm total shares, other positions' LP, owner position's LP
+	tv, cash, restDebt sdkmath.Int // vault: value, cash, other borrowers' debt
+	debt               sdkmath.Int // owner position's principal
+	coll               sdkmath.Int
+	wallet             sdkmath.Int
+	est                sdkmath.Int
+	count              uint64
+	hasPos             bool
+	stopLoss           sdkmath.LegacyDec
 }
 
 func nonneg(name string) sdkmath.Int {
@@ -278,6 +278,7 @@ func (s *state) check(label string, id uint64) {
 }
 
 // open of a new position
+//
 //vrf:cover open-ok
 //vrf:bound 1 new position from a symbolic pool / vault state (other positions and borrowers folded into symbolic sums); leverage in (1, 10], collateral symbolic; join amount havocked
 //vrf:max-paths 3000
@@ -304,6 +305,7 @@ func H_Open_New() {
 }
 
 // close by the owner (partial or full)
+//
 //vrf:cover close-ok position-gone
 //vrf:bound 1 existing position; requested LP amount symbolic (<= 0 / > position = full); exit amount havocked; shortfall and surplus both reachable
 //vrf:max-paths 3000
@@ -320,6 +322,7 @@ func H_Close_ByOwner() {
 }
 
 // close-positions from a third party: liquidate list
+//
 //vrf:cover untouched liquidated
 //vrf:bound 1 existing position named in the liquidate list by a third party; errors are swallowed by the handler, so partial effects are part of the step
 //vrf:max-paths 3000
@@ -345,6 +348,7 @@ func H_ClosePositions_Liquidate() {
 }
 
 // owner-only close sent by someone else
+//
 //vrf:cover refused
 func H_Close_ByOther() {
 	s := setup(true)
@@ -354,4 +358,93 @@ func H_Close_ByOther() {
 	vrf.Cover("refused")
 	vrf.Assert(err != nil, "C10/C17: closing someone else's leveraged-LP position is refused")
 	vrf.Assert(env.W.TotalWrites() == before, "C10/C17: a refused close changes nothing")
+}
+
+// ---- two positions of one pool processed in one pass ----
+
+var owner2 = sdk.AccAddress([]byte("owner_two___________"))
+
+// setupTwo: setup(true) plus a second position (id 2, another owner) carved out of the symbolic remainders
+// (its LP amount out of the other positions' LP, its debt out of the other borrowers' debt)
+func setupTwo() (*state, sdkmath.Int, sdkmath.Int) {
+	s := setup(true)
+	env, ctx := s.env, s.env.Ctx
+	lp2, debt2 := vrf.Int("position2Lp"), vrf.Int("position2Debt")
+	vrf.Assume(lp2.IsPositive())
+	vrf.Assume(debt2.IsPositive())
+	vrf.Assume(lp2.LTE(s.restLp))
+	vrf.Assume(debt2.LTE(s.restDebt))
+	s.restLp = s.restLp.Sub(lp2)
+	s.restDebt = s.restDebt.Sub(debt2)
+	vrf.Assume(s.count >= 2) // the counter already counts it
+	p := levtypes.NewPosition(owner2.String(), sdk.NewCoin(usdc, vrf.Int("position2Collateral")), 1)
+	p.Id = 2
+	p.LeveragedLpAmount, p.Liabilities, p.StopLossPrice = lp2, debt2, sdkmath.LegacyZeroDec()
+	env.Lev.SetPosition(ctx, p)
+	env.Lev.SetPositionCount(ctx, 2)
+	c := env.Comm.GetCommitments(ctx, p.GetPositionAddress())
+	c.AddCommittedTokens(share, lp2, 0)
+	env.Comm.SetCommitments(ctx, c)
+	env.Stable.SetDebt(ctx, sstypes.Debt{Address: p.GetPositionAddress().String(), Borrowed: debt2, InterestStacked: sdkmath.ZeroInt(), InterestPaid: sdkmath.ZeroInt(),
+		BorrowTime: now, LastInterestCalcTime: now, LastInterestCalcBlock: 100})
+	return s, lp2, debt2
+}
+
+// checkTwo: C08 over both explicit positions and the remainder
+func (s *state) checkTwo(label string) {
+	env, ctx := s.env, s.env.Ctx
+	pool, found := env.Lev.GetPool(ctx, 1)
+	vrf.Assert(found, label+": leveragelp pool still stored")
+	sum := s.restLp
+	stored := uint64(0)
+	for id, who := range []sdk.AccAddress{owner, owner2} {
+		pid := uint64(id + 1)
+		cm := env.Comm.GetCommitments(ctx, levtypes.GetPositionAddress(pid))
+		committed := cm.GetCommittedAmountForDenom(share)
+		lp := sdkmath.ZeroInt()
+		if p, err := env.Lev.GetPosition(ctx, who, pid); err == nil {
+			stored++
+			lp = p.LeveragedLpAmount
+		} else {
+			vrf.Cover("position-gone")
+		}
+		vrf.Assert(lp.Equal(committed), "C08 "+label+": position LP amount == shares committed at the position's address")
+		sum = sum.Add(lp)
+	}
+	vrf.Assert(pool.LeveragedLpAmount.Equal(sum), "C08 "+label+": pool leveraged-LP total == sum over open positions (two closes in one pass)")
+	vrf.Assert(env.Lev.GetOpenPositionCount(ctx) == s.count-2+stored, "C08 "+label+": open-position counter == number of stored positions")
+	tot := env.W.BalOf(ssMod, usdc).Add(s.restDebt)
+	for _, d := range env.Stable.GetAllDebts(ctx) {
+		tot = tot.Add(d.Borrowed).Add(d.InterestStacked).Sub(d.InterestPaid)
+	}
+	vrf.Assert(env.Stable.GetParams(ctx).TotalValue.Equal(tot), "C06 "+label+": vault TotalValue == cash + sum(principal + accrued - paid)")
+}
+
+// the begin-blocker's fallback pass over two positions of the same pool (liquidations and stop-loss closes)
+//
+//vrf:cover position-gone done
+//vrf:bound 2 explicit positions of one pool + symbolic remainder; one pass of the begin-blocker (epoch length 1, page of 1000)
+//vrf:max-paths 4000
+func H_BeginBlocker_TwoPositions() {
+	s, _, _ := setupTwo()
+	s.env.Lev.BeginBlocker(s.env.Ctx)
+	vrf.Cover("done")
+	s.checkTwo("begin-blocker")
+}
+
+// close-positions naming both positions in its liquidate list
+//
+//vrf:cover position-gone done
+//vrf:bound 2 explicit positions of one pool named in one MsgClosePositions by a third party
+//vrf:max-paths 4000
+func H_ClosePositions_Two() {
+	s, _, _ := setupTwo()
+	env, ctx := s.env, s.env.Ctx
+	srv := levkeeper.NewMsgServerImpl(*env.Lev)
+	_, err := srv.ClosePositions(ctx, &levtypes.MsgClosePositions{Creator: bot.String(), Liquidate: []*levtypes.PositionRequest{{Address: owner.String(), Id: 1}, {Address: owner2.String(), Id: 2}}})
+	if err != nil {
+		return
+	}
+	vrf.Cover("done")
+	s.checkTwo("close-positions(two)")
 }
